@@ -56,7 +56,7 @@ USERS = ['admin', 'normal', 'viewonly']
 LEVELS = {'admin': 30, 'normal': 20, 'viewonly': 10, 'none': 0}
 ISS = 'qToggle'
 HEADER = 'From QT Require Import C10.Run.\nOpen Scope string_scope.\nOpen Scope Z_scope.\n'
-REPLAY_HELP = ('bin/check C10 --replay <this file>  (by hand: start qtoggleserver from /repo with the in-memory JSON '
+REPLAY_HELP = ('bin/check C10 --replay <this file>  (issued-header cases: call make_auth_header with case.stream.creds at each of case.stream.times/8 and verify at once; other cases by hand: start qtoggleserver from /repo with the in-memory JSON '
                'persistence driver, apply case.actions in order, set the clock to case.now8/8 and send '
                '"GET /api/access" with "Authorization: <case.hdr>"; expected: coq/theories/C10/Spec.v expectation)')
 T_REAL = 1790000000        # a "real" date (2026)
@@ -545,7 +545,23 @@ def pick_now8(rng, skew):
     return 8 * (T_REAL + rng.randint(0, 10 ** 7)) + rng.choice([0, 0, 1, 4, 7])
 
 
-def gen_history(rng, n_actions, n_probes, skew, sweep):
+def gen_stream(rng, skew, pool):
+    """the hub issues headers with the same credentials again and again while its clock advances (1-7 s per step, over more
+    than twice the skew); every header is verified at once by receivers whose clocks are off by the given offsets"""
+    t8 = 8 * (T_REAL + rng.randint(0, 10 ** 7)) + rng.randint(0, 7)
+    times = []
+    end = t8 + int(8 * skew * 2.3)
+    while t8 < end:
+        times.append(t8)
+        t8 += rng.randint(8, 56)
+    dkey = sha_hex(rng.choice(pool) + '-slave')
+    creds = [{'kind': 0, 'origin': 'consumer', 'username': 'admin', 'key_user': 'admin'},
+             {'kind': 2, 'origin': 'device', 'username': rng.choice([None, None, 'dev-1']), 'key': dkey}]
+    offsets = [-8 * skew - 1, -8 * skew, -8 * (skew // 2), -8 * 7, 8 * 7, 8 * (skew // 2), 8 * skew - 7, 8 * skew + 1]
+    return {'stream': {'times': times, 'creds': creds, 'offsets': offsets}}
+
+
+def gen_history(rng, n_actions, n_probes, skew, sweep, stream=False):
     """-> {'items': [...], 'pool': [...]}; probes carry 'mut' labels; about n_probes probes in total"""
     acts, pool = gen_actions(rng, n_actions)
     sim = Sim()
@@ -600,6 +616,8 @@ def gen_history(rng, n_actions, n_probes, skew, sweep):
         for o in action_ops(a):
             sim.apply(o)
         batch(i + 1 == sweep_at)
+    if stream:
+        items.append(gen_stream(rng, skew, pool))
     return {'items': items, 'pool': pool}
 
 
@@ -868,6 +886,26 @@ async def main(script_path, out_path):
                     r = {'ok': False, 'detail': '%s: %s' % (type(e).__name__, e)}
                 r['hashes'] = [getattr(A, n) for n in HASH_NAMES]
                 hres.append({'action': r})
+            elif 'stream' in item:
+                st = item['stream']
+                sres = []
+                for t8 in st['times']:
+                    row = []
+                    for c in st['creds']:
+                        CLOCK[0] = t8 / 8
+                        key = c['key'] if 'key' in c else getattr(A, '%s_password_hash' % c['key_user'])
+                        try:
+                            hdr = core_api_auth.make_auth_header(c['origin'], c['username'], key)
+                        except Exception as e:
+                            row.append({'error': 'make_auth_header: %s: %s' % (type(e).__name__, e), 'make_key': key})
+                            continue
+                        obs = []
+                        for d in [0] + st['offsets']:
+                            CLOCK[0] = (t8 + d) / 8
+                            obs.append(direct(hdr, c['kind'], c.get('key')))
+                        row.append({'hdr': hdr, 'make_key': key, 'obs': obs})
+                    sres.append(row)
+                hres.append({'stream': sres})
             else:
                 b = item['batch']
                 CLOCK[0] = b['now8'] / 8
@@ -939,6 +977,13 @@ def verifying_keys(parsed, keys):
     return out
 
 
+def fix_absent(obs, kind, pp):
+    """usr absent from the token: parse_auth_header returns None; the model's claim lookup gives None (not JNull)"""
+    if obs[0] == 'grant' and obs[1] is None and kind == 2 and 'usr' not in (pp or {}).get('claims', {}):
+        obs[1] = '__absent__'
+    return obs
+
+
 def build_shard(hist, hres, info, res, stats):
     """-> (coq text, meta list aligned with the cases) or None"""
     skew = int(info['skew'])
@@ -960,10 +1005,22 @@ def build_shard(hist, hres, info, res, stats):
             stats['actions'] = stats.get('actions', 0) + 1
             stats['action:%s:%s' % (a['a'], ar.get('via'))] = stats.get('action:%s:%s' % (a['a'], ar.get('via')), 0) + 1
             continue
-        b = item['batch']
-        now8 = b['now8']
+        if 'stream' in item:
+            st = item['stream']
+            plist = []
+            for t8, row in zip(st['times'], r['stream']):
+                for c, o in zip(st['creds'], row):
+                    p = {'kind': c['kind'], 'mut': 'stream:%s%s' % (c['origin'], '' if c['username'] is None or c['kind'] == 0 else '-usr'),
+                         'make': {'origin': c['origin'], 'username': c['username']}, 'key': c.get('key'), 'user': c.get('key_user')}
+                    if 'obs' in o:
+                        o = dict(o, direct=o['obs'][0], multi=list(zip(st['offsets'], o['obs'][1:])))
+                    p['stream_spec'] = st
+                    plist.append((t8, p, o))
+        else:
+            b = item['batch']
+            plist = [(b['now8'], p, o) for p, o in zip(b['probes'], r['batch'])]
         k = len(ops)
-        for p, o in zip(b['probes'], r['batch']):
+        for now8, p, o in plist:
             if 'error' in o:
                 if 'make' in p and 'InvalidKeyError' in o['error'] and not o.get('make_key'):
                     # this PyJWT refuses to sign with an empty key: make_auth_header(…, None or '') raises
@@ -989,7 +1046,7 @@ def build_shard(hist, hres, info, res, stats):
             issued = 'None'
             keys = set(sha_tbl.values()) | {''}
             if kind == 2:
-                keys.add(p.get('key', ''))
+                keys.add(p.get('key') or '')
             if 'make' in p:
                 m = p['make']
                 mk = o.get('make_key')
@@ -997,9 +1054,9 @@ def build_shard(hist, hres, info, res, stats):
                     # make_auth_header signs with '' when the hash is None
                     mk = ''
                 keys.add(mk)
-                iat = 'None' if now8 <= 8 * info['old_time_limit'] else '(Some %s)' % coq.z(now8 // 8)
-                issued = '(Some (%s, %s, %s, %s))' % (
-                    cstr(m['origin']), 'None' if m['username'] is None else '(Some %s)' % cstr(m['username']), cstr(mk), iat)
+                # the issue time is not passed: Spec.v says it is the clock of the call (c_now8)
+                issued = '(Some (%s, %s, %s))' % (
+                    cstr(m['origin']), 'None' if m['username'] is None else '(Some %s)' % cstr(m['username']), cstr(mk))
             try:
                 vk = sorted(set(verifying_keys(pp, keys)) | set(verifying_keys(sp, keys)))
                 if kind == 4:
@@ -1009,12 +1066,7 @@ def build_shard(hist, hres, info, res, stats):
                 elif kind == 3:
                     obs = ['refuse']
                 else:
-                    obs = list(o['direct'])
-                    if obs[0] == 'grant' and obs[1] is None and kind == 2:
-                        # usr absent from the token: parse_auth_header returns None; the model's claim lookup gives None
-                        pl = (pp or {}).get('claims', {})
-                        if 'usr' not in pl:
-                            obs[1] = '__absent__'
+                    obs = fix_absent(list(o['direct']), kind, pp)
                 http = o.get('http')
                 if http is not None and http < -1:
                     res['tie_failures'].append({'note': 'unexpected HTTP status from GET /api/access', 'status': -1000 - http,
@@ -1026,10 +1078,11 @@ def build_shard(hist, hres, info, res, stats):
                     pre, suf = hdr[:i], hdr[i + len(cand):]
                 else:
                     pre, suf = hdr, ''
-                text = 'HC %d %d %s %s %s %s %s %s %s %s %s %s %s %s' % (
+                multi = coq.lst(o.get('multi', []), lambda dv: '(%s, %s)' % (coq.z(dv[0]), cobs(fix_absent(list(dv[1]), kind, pp))))
+                text = 'HC %d %d %s %s %s %s %s %s %s %s %s %s %s %s %s' % (
                     kind, k, coq.z(now8), cstr(pre), cstr(cand), cstr(suf), 'p' if ps == ss else ps, 'p' if ps == ss else ss,
-                    coq.lst(vk, cstr), cstr(p.get('key', '') if kind == 2 else ''), issued, cobs(obs),
-                    'None' if http is None else '(Some %s)' % coq.z(http), coq.boolean(bool(cand) and plain_token(cand)))
+                    coq.lst(vk, cstr), cstr((p.get('key') or '') if kind == 2 else ''), issued, cobs(obs),
+                    'None' if http is None else '(Some %s)' % coq.z(http), coq.boolean(bool(cand) and plain_token(cand)), multi)
                 if ps == ss:
                     text = 'let p := %s in %s' % (ps, text)
             except Unencodable as e:
@@ -1039,7 +1092,8 @@ def build_shard(hist, hres, info, res, stats):
             meta.append({'kind': kind, 'mut': p.get('mut'), 'hdr': hdr, 'now8': now8, 'k': k, 'actions': actions_so_far,
                          'user': p.get('user'), 'key': p.get('key'), 'make': p.get('make'), 'direct': o.get('direct'),
                          'http': o.get('http'), 'bits': o.get('bits'), 'leak': o.get('leak'),
-                         'wellformed': sp is not None, 'make_key': o.get('make_key')})
+                         'wellformed': sp is not None, 'make_key': o.get('make_key'),
+                         'multi': [[d, v[0]] for d, v in o.get('multi', [])], 'stream_spec': p.get('stream_spec')})
     body = (
         'Definition skew := %s.\n' % coq.z(skew)
         + 'Definition sha : list (string * string) := %s.\n'
@@ -1097,7 +1151,8 @@ def run_histories(ctx, res, histories, tag):
     distinct = set()
     for meta in metas:
         for m in meta:
-            res['evaluations'] += (1 if m['direct'] is not None or m['kind'] == 4 else 0) + (1 if m['http'] is not None else 0)
+            res['evaluations'] += ((1 if m['direct'] is not None or m['kind'] == 4 else 0) + (1 if m['http'] is not None else 0)
+                                   + len(m.get('multi') or []))
             oc = outcome_of(m)
             stats['outcome:' + oc] = stats.get('outcome:' + oc, 0) + 1
             stats['mutation:' + mut_class(m['mut'])] = stats.get('mutation:' + mut_class(m['mut']), 0) + 1
@@ -1147,6 +1202,11 @@ def violation(m):
         what = 'a request without Authorization header got %s after %d operations, which contradicts the specification' % (
             oc, len(m['actions']))
         key = {'observe': 'no-header', 'outcome': oc, 'granted': oc != 'http:none'}
+    elif (m['mut'] or '').startswith('stream:'):
+        what = ('make_auth_header(%r, %r, <key>) called at t=%s returned a header that contradicts the specification (issue '
+                'time = clock of the call; verifies for receiver clocks within the skew): verified at once -> %s; at receiver '
+                'offsets (1/8 s) %r' % (m['make']['origin'], m['make']['username'], m['now8'] / 8, oc, m.get('multi')))
+        key = {'observe': 'issued-header', 'origin': m['make']['origin'], 'granted': False}
     else:
         what = 'header of class %r (%s) -> %s at t=%s after %d operations, which contradicts the specification' % (
             m['mut'], 'device-origin check' if m['kind'] == 2 else 'consumer', oc, m['now8'] / 8, len(m['actions']))
@@ -1154,6 +1214,9 @@ def violation(m):
                'granted': 'granted' in oc or 'http:admin' in oc or 'http:normal' in oc or 'http:viewonly' in oc}
     case = {'kind': m['kind'], 'hdr': m['hdr'], 'now8': m['now8'], 'actions': m['actions'], 'mut': m['mut'], 'key': m['key'],
             'make': m['make'], 'user': m['user']}
+    if m.get('stream_spec'):
+        st = m['stream_spec']
+        case['stream'] = {'times': [t for t in st['times'] if t <= m['now8']], 'creds': st['creds'], 'offsets': st['offsets']}
     return {'key': key, 'what': what, 'case': case, 'observed': oc}
 
 
@@ -1162,6 +1225,10 @@ def violation(m):
 
 def history_of_case(c):
     items = [{'action': a} for a in c.get('actions', [])]
+    if c.get('stream'):
+        pool = sorted({pw for a in c.get('actions', []) for pw in
+                       ([x[1] for x in a.get('pws', [])] + ([a['pw']] if 'pw' in a else []))} | set(c.get('pool', [])))
+        return {'items': items + [{'stream': c['stream']}], 'pool': pool}
     p = {'kind': c.get('kind', 0), 'mut': c.get('mut', 'corpus')}
     for f in ('hdr', 'key', 'make', 'user'):
         if c.get(f) is not None:
@@ -1224,13 +1291,16 @@ def check(ctx, res):
     nh, na, npr = budget(ctx)
     skew = 300
     hs = [gen_history(ctx.rng, na, npr, skew, sweep=(i % 5 == 0)) for i in range(nh)]
+    # short histories that end in a stream of headers issued over > 2 x skew with the clock advancing (own shards)
+    hs += [gen_history(ctx.rng, 3, 12, skew, sweep=False, stream=True) for _ in range(ctx.n(1, 8))]
     run_histories(ctx, res, hs, 'gen')
 
 
 def search(ctx, res):
     """the proof or the tie broke: look harder for a concrete failing input (spec oracle vs implementation)"""
     nh, na, npr = budget(ctx)
-    hs = [gen_history(ctx.rng, na, npr * 2, 300, sweep=(i % 3 == 0)) for i in range(nh * (2 if ctx.tier == 'quick' else 1))]
+    hs = [gen_history(ctx.rng, na, npr * 2, 300, sweep=(i % 3 == 0), stream=(i % 5 == 1))
+          for i in range(nh * (2 if ctx.tier == 'quick' else 1))]
     run_histories(ctx, res, hs, 'search')
 
 
